@@ -103,6 +103,26 @@ def run_ddsmt(workdir, input_text, spec, opts=(), entry='launcher',
             f.write('#!/bin/sh\nexit 0\n')
         os.chmod(ne, 0o644)
         ddargs = opts + [infile, outfile, ne, specfile]
+    elif mangle in ('command-exec-format', 'cross-check-exec-format'):
+        # an executable file the system cannot run (no interpreter line,
+        # not a binary)
+        nf = os.path.join(workdir, 'no-format')
+        with open(nf, 'wb') as f:
+            f.write(b'\x00\x01 not a program\n')
+        os.chmod(nf, 0o755)
+        if mangle == 'command-exec-format':
+            ddargs = opts + [infile, outfile, nf, specfile]
+        else:
+            ddargs = ['-c', nf] + opts + [infile, outfile, PRED, specfile]
+    elif mangle == 'cross-check-missing':
+        ddargs = ['-c', os.path.join(workdir, 'no-such-command')] + opts + \
+            [infile, outfile, PRED, specfile]
+    elif mangle == 'cross-check-not-executable':
+        ne = os.path.join(workdir, 'not-executable-cc')
+        with open(ne, 'w') as f:
+            f.write('#!/bin/sh\nexit 0\n')
+        os.chmod(ne, 0o644)
+        ddargs = ['-c', ne] + opts + [infile, outfile, PRED, specfile]
     if entry == 'launcher':
         argv = [common.PY, LAUNCHER, '--log', evlog, '--'] + ddargs
     elif entry == 'module':
